@@ -74,7 +74,9 @@ func (exec *execCtx) assemble() {
 					rng = &exec.lastChildRange
 				}
 				// payload of all children except the last are written, write last payload
-				exec.copyChild(exec.lastChildID, rng, false)
+				if rng == nil || rng.GetLength() > 0 {
+					exec.copyChild(exec.lastChildID, rng, false)
+				}
 			}
 		}
 	} else {
